@@ -516,6 +516,13 @@ func buildSeeds() {
 	raw := bz.BuildFile([][]byte{payload[:len(payload)/2], payload[len(payload)/2:]}, 6, true).Bytes
 	seeds["bam_raw"] = [][]byte{raw}
 	seeds["bgzf"] = [][]byte{raw, bz.BuildFile([][]byte{[]byte("hello"), nil, []byte("world")}, 0, true).Bytes, bz.EOFMarker}
+	// well-framed members (valid BSIZE, CRC32, ISIZE) that inflate to more than a
+	// block may hold: 65281, 65536, 65537 and 70000 bytes, alone and after a normal member
+	for _, n := range []int{0xff00 + 1, 1 << 16, 1<<16 + 1, 70000} {
+		big := bz.EncodeMember(make([]byte, n), 6)
+		seeds["bgzf"] = append(seeds["bgzf"], append(append([]byte(nil), big...), bz.EOFMarker...),
+			append(append(bz.EncodeMember([]byte("first"), 6), big...), bz.EOFMarker...))
+	}
 	samText := string(text) + strings.Join(lines, "\n") + "\n"
 	seeds["sam_reader"] = [][]byte{[]byte(samText), []byte(strings.Join(lines, "\n"))}
 	for _, l := range lines {
@@ -904,7 +911,7 @@ func draw(t *rapid.T) Case {
 		s := cramGen().Draw(t, "cram")
 		c.Cram = &s
 	}
-	c.Seed = rapid.IntRange(0, 19).Draw(t, "seed")
+	c.Seed = rapid.IntRange(0, 23).Draw(t, "seed")
 	c.Muts = rapid.SliceOfN(mutGen(), 0, 6).Draw(t, "muts")
 	return c
 }
